@@ -234,6 +234,25 @@ pub fn gen_c02(rng: &mut Prng, run: u64, _t: &Tier) -> Vec<Ev> {
             }
         }
     }
+    if seals {
+        // single-shot forms against the model: a real single-shot seal (its composed twin is compared
+        // with refhpke byte for byte), and real single-shot opens of model-produced first messages
+        let kem = suite.kem;
+        ev.push(Ev::Keygen { k: 20, kem, ikm: ikm(rng) });
+        let ks = if mode.has_auth() {
+            ev.push(Ev::Keygen { k: 21, kem, ikm: ikm(rng) });
+            Some(21)
+        } else {
+            None
+        };
+        let (pt, aad) = msg(rng, false);
+        ev.push(Ev::SingleShotSeal { c: 4, cfg: cfg.clone(), kr: 20, ks, rng: rng_script(rng, kem), pt, aad, inplace: rng.chance(1, 2) });
+        ev.push(Ev::SetupR { c: 4, cfg: cfg.clone(), kr: 20, ks, enc: EncSrc::Of(4), model_only: true });
+        ev.push(Ev::Deliver { r: 4, from: 4, rec: RecRef::Next, fault: Fault::None, api: OpenApi::Alloc });
+        for api in [OpenApi::SingleShot, OpenApi::SingleShotInPlace] {
+            ev.push(Ev::Deliver { r: 1, from: 1, rec: RecRef::Index(0), fault: Fault::None, api });
+        }
+    }
     if seals && rng.chance(1, 5) {
         // counters cross 2^8
         for c in 0..3 {
@@ -609,7 +628,7 @@ pub fn gen_c06(rng: &mut Prng, run: u64, t: &Tier) -> Vec<Ev> {
 
 fn perturb_bytes(rng: &mut Prng, v: &[u8]) -> Vec<u8> {
     let mut o = v.to_vec();
-    match rng.below(8) {
+    match rng.below(10) {
         0 if !o.is_empty() => {
             let i = rng.below(o.len() as u64 * 8) as usize;
             o[i / 8] ^= 1 << (i % 8);
@@ -631,7 +650,15 @@ fn perturb_bytes(rng: &mut Prng, v: &[u8]) -> Vec<u8> {
                 o.clear();
             }
         }
-        _ => o.push(rng.below(256) as u8),
+        _ => {
+            // append or prepend a byte that parsers / normalisers tend to treat specially
+            let x = *rng.pick(&[0x00u8, 0x20, 0x0a, 0x0d, 0x09, 0x0c, 0xff, 0x80, b'=', b'/']);
+            if rng.chance(1, 2) {
+                o.push(x)
+            } else {
+                o.insert(0, x)
+            }
+        }
     }
     if o == v {
         o.push(1);
@@ -823,12 +850,9 @@ pub fn gen_c08(rng: &mut Prng, run: u64, _t: &Tier) -> Vec<Ev> {
             (None, None)
         }
         _ => {
-            let mut p = cfg.psk.0.clone();
-            if !p.is_empty() && rng.chance(1, 2) {
-                let i = rng.below(p.len() as u64 * 8) as usize;
-                p[i / 8] ^= 1 << (i % 8);
-            } else {
-                p.push(0);
+            let mut p = perturb_bytes(rng, &cfg.psk);
+            if p.is_empty() {
+                p = vec![0x20];
             }
             icfg.psk = b(p);
             (ks, None)
@@ -920,6 +944,13 @@ pub fn gen_c09(rng: &mut Prng, run: u64, t: &Tier) -> Vec<Ev> {
             }
             for l in [0usize, 1, npk - 1, npk, npk + 1] {
                 push(rng.rand_bytes(l), kind);
+            }
+            // lengths congruent to Npk modulo 2^8 / 2^16 with a valid key as prefix (length
+            // arithmetic in a narrower integer type)
+            for extra in [256usize, 512, 768, 65536, 65536 + 256] {
+                let mut v = pk.clone();
+                v.resize(npk + extra, if rng.chance(1, 2) { 0 } else { 0x04 });
+                push(v, kind);
             }
         }
         3 => {
@@ -1026,6 +1057,11 @@ pub fn gen_c09(rng: &mut Prng, run: u64, t: &Tier) -> Vec<Ev> {
             for l in 0..=2 * nsk + 2 {
                 let mut v = sk.clone();
                 v.resize(l, 0x11);
+                cands.push(v);
+            }
+            for extra in [256usize, 512, 65536] {
+                let mut v = sk.clone();
+                v.resize(nsk + extra, 0);
                 cands.push(v);
             }
             for c in cands {
@@ -1213,6 +1249,11 @@ pub fn gen_c12(rng: &mut Prng, run: u64, _t: &Tier) -> Vec<Ev> {
         v.resize(l, 0);
         ev.push(Ev::DecodeProbe { suite, kind, bytes: b(v) });
         ev.push(Ev::WriteExactProbe { suite, kind, bytes: b(val.clone()), buflen: l });
+    }
+    for extra in [256usize, 512, 65536] {
+        let mut v = val.clone();
+        v.resize(size + extra, 0);
+        ev.push(Ev::DecodeProbe { suite, kind, bytes: b(v) });
     }
     // X25519: every 32-byte string is an accepted public / encapsulated key and must come back
     // byte-identical, in particular the non-canonical ones (u >= p, bit 255 set, small order)
